@@ -72,9 +72,26 @@ func c23Corpus() []*ref.Repo {
 		}
 		return r
 	}
-	return []*ref.Repo{
+	out := []*ref.Repo{
 		mk("one", 1, 1, "MARKA"), mk("two", 2, 2, "MARKB"), mk("three", 3, 1, "MARKC"), mk("four", 4, 0, "MARKD"), mk("five", 5, 2, "MARKE"),
 	}
+	// two tenants own a repository with the SAME name: only ids, versions, file names and
+	// contents tell them apart (anything keyed by repository name may mix them up)
+	for i, m := range []string{"MARKF", "MARKG"} {
+		r := mk("x", uint32(6+i), 1+i, m)
+		r.Name = "shared/name"
+		r.Versions = []string{m + "-version-head", m + "-version-dev"}
+		out = append(out, r)
+	}
+	return out
+}
+
+// c23Mark returns the marker token of a repository of c23Corpus.
+func c23Mark(r *ref.Repo) string {
+	if r.Name == "shared/name" {
+		return r.Versions[0][:5]
+	}
+	return r.Name[:5]
 }
 
 func TestVerifC23(t *testing.T) {
@@ -111,10 +128,13 @@ func TestVerifC23(t *testing.T) {
 	if _, err := gen.WriteCompound(ddir, corpus[:3]...); err != nil {
 		t.Fatal(err)
 	}
-	for _, rp := range corpus[3:] {
+	for _, rp := range corpus[3:5] {
 		if _, err := gen.WriteSimple(ddir, rp); err != nil {
 			t.Fatal(err)
 		}
+	}
+	if _, err := gen.WriteCompound(ddir, corpus[5:]...); err != nil {
+		t.Fatal(err)
 	}
 	ds, err := search.NewDirectorySearcher(ddir)
 	if err != nil {
@@ -126,7 +146,7 @@ func TestVerifC23(t *testing.T) {
 		&query.Const{Value: true}, &query.Substring{Pattern: "abc"}, &query.Substring{Pattern: "content", Content: true}, &query.Substring{Pattern: "f1", FileName: true},
 		&query.Substring{Pattern: "MARKA"}, &query.Substring{Pattern: "MARKB"}, &query.Substring{Pattern: "MARKD"},
 		&query.Repo{Regexp: mustRe("MARK")}, &query.Repo{Regexp: mustRe("MARKB")}, &query.RepoRegexp{Regexp: mustRe("one|two|four")},
-		query.NewRepoSet("MARKA-one", "MARKB-two", "MARKD-four"), query.NewRepoIDs(1, 2, 3, 4, 5), query.NewSingleBranchesRepos("dev", 1, 2, 4), query.NewSingleBranchesRepos("HEAD", 2),
+		query.NewRepoSet("MARKA-one", "MARKB-two", "MARKD-four", "shared/name"), query.NewRepoIDs(1, 2, 3, 4, 5, 6, 7), &query.Repo{Regexp: mustRe("shared")}, query.NewSingleBranchesRepos("dev", 1, 2, 4), query.NewSingleBranchesRepos("HEAD", 2),
 		&query.Branch{Pattern: "dev"}, &query.Language{Language: "Go"}, query.RcOnlyPublic, &query.Meta{Field: "team", Value: mustRe("MARK[AB]")},
 		query.NewFileNameSet("MARKA/f0.go", "MARKB/f0.go", "MARKD/f0.go"),
 		&query.Symbol{Expr: &query.Substring{Pattern: "abc", Content: true}},
@@ -238,7 +258,7 @@ func TestVerifC23(t *testing.T) {
 					joined := strings.Join(strs, "\x00")
 					seesOwn := false
 					for _, rp := range corpus {
-						mark := rp.Name[:5]
+						mark := c23Mark(rp)
 						if c.tenant == -1 || rp.TenantID == c.tenant {
 							if strings.Contains(joined, mark) {
 								seesOwn = true
